@@ -67,8 +67,8 @@ def parse_r(line, shape=None):
 def adj_gap(x, y, Ax, By):
     """| <y,Ax> - <By,x> | relative to the Cauchy-Schwarz size of the two sides"""
     lhs, rhs = np.vdot(y, Ax), np.vdot(By, x)
-    scale = max(np.linalg.norm(y) * np.linalg.norm(Ax), np.linalg.norm(By) * np.linalg.norm(x), 1e-300)
-    return abs(lhs - rhs) / scale, lhs, rhs
+    scale = max(float(np.linalg.norm(y)) * float(np.linalg.norm(Ax)), float(np.linalg.norm(By)) * float(np.linalg.norm(x)), 1e-300)
+    return float(abs(lhs - rhs)) / scale, lhs, rhs
 
 
 def richardson(f, h):
@@ -95,6 +95,51 @@ def close(a, b, tol):
     return e <= tol * s, f'max abs diff {e:.3e} (scale {s:.3e})'
 
 
+LAYOUTS = ['C', 'F', 'T', 'strided', 'neg']
+
+
+def relayout(a, kind):
+    """the same values in another memory layout: C, Fortran, transposed view of a C array, every-other-element view of a larger
+    array, negative strides along every axis"""
+    a = np.asarray(a)
+    if a.ndim == 0 or kind in (None, 'C'):
+        return np.ascontiguousarray(a)
+    if kind == 'F':
+        return np.asfortranarray(a)
+    if kind == 'T':
+        return np.ascontiguousarray(a.T).T
+    if kind == 'strided':
+        big = np.zeros(tuple(2 * n + 1 for n in a.shape), dtype=a.dtype)
+        sl = tuple(slice(1, 2 * n + 1, 2) for n in a.shape)
+        big[sl] = a
+        return big[sl]
+    if kind == 'neg':
+        rev = tuple(slice(None, None, -1) for _ in a.shape)
+        return np.ascontiguousarray(a[rev])[rev]
+    raise ValueError(kind)
+
+
+def layfn(p):
+    """L(array) = the array as the case wants it laid out (values unchanged)"""
+    kind = p.get('layout')
+    return (lambda a: a) if kind in (None, 'C') else (lambda a: relayout(a, kind))
+
+
+def narrow(p, *arrays):
+    """single-precision variants of the inputs when the case asks for them (values re-rounded BEFORE the predicate uses them)"""
+    if p.get('dtype') != 'f32':
+        return arrays if len(arrays) > 1 else arrays[0]
+    out = tuple(None if a is None else np.asarray(a).astype(np.complex64 if np.iscomplexobj(a) else np.float32) for a in arrays)
+    return out if len(out) > 1 else out[0]
+
+
+def adj_tol(p, *results):
+    """1e-10 in double precision; a case fed single-precision arrays (or a routine answering in single precision) carries
+    float32 round-off in its intermediates (e.g. conj(L)*ybar formed in complex64)"""
+    single = p.get('dtype') == 'f32' or any(np.asarray(r).dtype in (np.float32, np.complex64) for r in results)
+    return 3e-5 if single else TOL_ADJ
+
+
 def pure2(fn, *args, **kw):
     """call a routine documented as pure twice on the same argument objects: the arrays handed in must be left untouched
     and the second answer must equal the first.  returns (first result, '' or a description of the impurity)"""
@@ -114,6 +159,7 @@ class Result:
         self.ok, self.detail = ok, detail
         self.extra = list(extra)      # non-blocking model-fidelity comparisons: (line, impl, shape, kind, label)
         self.fidelity = []            # non-blocking observations about forward semantics
+        self.mtol = TOL_MODEL         # model-vs-implementation tolerance (single-precision cases: float32 round-off, set by _safe_run)
         self.model_line, self.impl, self.shape, self.kind = model_line, impl, shape, kind
         self.nontrivial, self.tag = nontrivial, tag
 
@@ -175,7 +221,8 @@ def run_mdft(p):
     shp, out = tuple(p['shp']), tuple(p['out'])
     Q = tuple(p['Q']) if isinstance(p['Q'], (list, tuple)) else p['Q']
     shift = tuple(p['shift'])
-    x, y = _cplx(r, shp), _cplx(r, out)
+    x, y = narrow(p, _cplx(r, shp), _cplx(r, out))
+    L = layfn(p)
     # the argument forms the executor documents: Q float / tuple / other iterable, samples int / iterable, shift float / iterable
     Qa = list(Q) if (p.get('qform') == 'list' and isinstance(Q, tuple)) else Q
     sin = shp[0] if (p.get('scalar_samples') and shp[0] == shp[1]) else shp
@@ -183,11 +230,12 @@ def run_mdft(p):
     sha = shift[0] if (p.get('scalar_shift') and shift[0] == shift[1]) else shift
     with Spy(ft) as spy:
         if p['op'] == 'dft2':
-            Ax, sg = ft.mdft.dft2(x, Qa, sout, sha), 1
+            Ax, sg = ft.mdft.dft2(L(x), Qa, sout, sha), 1
         else:
-            Ax, sg = ft.mdft.idft2(x, Qa, sout, sha), -1
-    By, impure = pure2(ft.mdft.dft2_backprop if sg == 1 else ft.mdft.idft2_backprop, y, Qa, sin, sha)
+            Ax, sg = ft.mdft.idft2(L(x), Qa, sout, sha), -1
+    By, impure = pure2(ft.mdft.dft2_backprop if sg == 1 else ft.mdft.idft2_backprop, L(y), Qa, sin, sha)
     gap, lhs, rhs = adj_gap(x, y, Ax, By)
+    TOL = adj_tol(p, Ax, By)
     Qy, Qx = Q if isinstance(Q, tuple) else (Q, Q)
     try:
         Eo, Ei = spy.bases(0)
@@ -195,7 +243,7 @@ def run_mdft(p):
     except (KeyError, IndexError):
         line = None
     fid = f'mdftbp {sg} {shp[0]} {shp[1]} {out[0]} {out[1]} ' + rw([Qy, Qx, shift[0], shift[1]]) + ' ' + cw(y)
-    return Result(gap <= TOL_ADJ and By.shape == shp and not impure,
+    return Result(gap <= TOL and By.shape == shp and not impure,
                   f'<y,Ax>={lhs:.12g} <By,x>={rhs:.12g} rel gap {gap:.3e}' + (f'; {impure}' if impure else ''),
                   line, By, shp, 'c', nontrivial=max(shp + out) > 1, extra=[(fid, By, shp, 'c', 'basis-formula model of the backprop')],
                   tag=f'{"sq" if shp[0] == shp[1] and out[0] == out[1] else "nonsq"}/{"Qax" if isinstance(Q, tuple) and Q[0] != Q[1] else "Q"}/{"shift" if any(shift) else "noshift"}'
@@ -208,7 +256,8 @@ def run_fixed(p):
     shp, out = tuple(p['shp']), tuple(p['out'])
     shift = tuple(p['shift'])
     idx, pd, wl, odx = p['input_dx'], p['prop_dist'], p['wavelength'], p['output_dx']
-    x, y = _cplx(r, shp), _cplx(r, out)
+    x, y = narrow(p, _cplx(r, shp), _cplx(r, out))
+    L = layfn(p)
     method = p.get('method', 'mdft')
     ft = _impl()[1]
     # `samples` may be given as one int for a square array (documented for every routine of this family)
@@ -219,23 +268,23 @@ def run_fixed(p):
     with Spy(ft) as spy:
         if p['op'] == 'focus':
             if p.get('via') == 'wavefront':
-                Ax = P.Wavefront(x, wl, idx, 'pupil').focus_fixed_sampling(pd, odx, out_a, shift, method).data
+                Ax = P.Wavefront(L(x), wl, idx, 'pupil').focus_fixed_sampling(pd, odx, out_a, shift, method).data
             else:
-                Ax = P.focus_fixed_sampling(x, idx, pd, wl, odx, out_a, shift, method)
+                Ax = P.focus_fixed_sampling(L(x), idx, pd, wl, odx, out_a, shift, method)
             sg = 1
         else:
-            Ax = P.unfocus_fixed_sampling(x, idx, pd, wl, odx, out_a, shift, method)
+            Ax = P.unfocus_fixed_sampling(L(x), idx, pd, wl, odx, out_a, shift, method)
             sg = -1
     if p['op'] == 'focus':
         if p.get('via') == 'wavefront':
-            wb = P.Wavefront(y, wl, odx, 'psf').focus_fixed_sampling_backprop(pd, idx, shp_a, shift, method='mdft')
+            wb = P.Wavefront(L(y), wl, odx, 'psf').focus_fixed_sampling_backprop(pd, idx, shp_a, shift, method='mdft')
             By = wb.data
             if wb.dx != idx or wb.space != 'pupil':
                 impure = f'returned Wavefront carries dx={wb.dx}, space={wb.space}; expected the pupil sampling {idx}'
         else:
-            By, impure = pure2(P.focus_fixed_sampling_backprop, y, idx, pd, wl, odx, shp_a, shift)
+            By, impure = pure2(P.focus_fixed_sampling_backprop, L(y), idx, pd, wl, odx, shp_a, shift)
     else:
-        By, impure = pure2(P.unfocus_fixed_sampling_backprop, y, idx, pd, wl, odx, shp_a, shift)
+        By, impure = pure2(P.unfocus_fixed_sampling_backprop, L(y), idx, pd, wl, odx, shp_a, shift)
     gap, lhs, rhs = adj_gap(x, y, Ax, By)
     line = None
     if len(spy.calls) == 1:          # matrix-DFT route: the adjoint of the forward's own triple product
@@ -246,7 +295,7 @@ def run_fixed(p):
             line = None
     fid = f'fixedbp {sg} {shp[0]} {shp[1]} {out[0]} {out[1]} ' + rw([idx, pd, wl, odx, shift[0], shift[1]]) + ' ' + cw(y)
     fline = f'fixedfwd {sg} {shp[0]} {shp[1]} {out[0]} {out[1]} ' + rw([idx, pd, wl, odx, shift[0], shift[1]]) + ' ' + cw(x)
-    return Result(gap <= TOL_ADJ and By.shape == shp and not impure,
+    return Result(gap <= adj_tol(p, Ax, By) and By.shape == shp and not impure,
                   f'<y,Ax>={lhs:.12g} <By,x>={rhs:.12g} rel gap {gap:.3e}' + (f'; {impure}' if impure else ''),
                   line, By, shp, 'c', nontrivial=max(shp + out) > 1,
                   extra=[(fline, Ax, out, 'c', 'physical-parameter model of the forward'),
@@ -281,20 +330,22 @@ def run_fpm(p):
     ps, ms = tuple(p['pshape']), tuple(p['mshape'])
     dx, efl, wl, fdx = p['dx'], p['efl'], p['wavelength'], p['fpm_dx']
     shift = tuple(p['shift'])
-    x, y = _cplx(r, ps), _cplx(r, ps)
-    m = _mask(r, ms, p['cmask'])
+    x, y, m = narrow(p, _cplx(r, ps), _cplx(r, ps), _mask(r, ms, p['cmask']))
+    L = layfn(p)
     method = p.get('method', 'mdft')
     ft = _impl()[1]
     with Spy(ft) as spy:
         if p.get('via') == 'wavefront':
-            Ax = P.Wavefront(x, wl, dx).to_fpm_and_back(efl, m, fdx, method=method, shift=shift).data
+            Ax = P.Wavefront(L(x), wl, dx).to_fpm_and_back(efl, L(m), fdx, method=method, shift=shift).data
         else:
-            Ax = P.to_fpm_and_back(x, dx, efl, wl, m, fdx, shift=shift, method=method)
+            Ax = P.to_fpm_and_back(L(x), dx, efl, wl, L(m), fdx, shift=shift, method=method)
     if p.get('via') == 'wavefront':
-        By = P.Wavefront(y, wl, dx).to_fpm_and_back_backprop(efl, m, fdx, method=method, shift=shift).data
+        By = P.Wavefront(L(y), wl, dx).to_fpm_and_back_backprop(efl, L(m), fdx, method=method, shift=shift).data
     else:
-        By = P.to_fpm_and_back_backprop(y, dx, wl, efl, m, fdx, method=method, shift=shift)
+        By, imp_ = pure2(P.to_fpm_and_back_backprop, L(y), dx, wl, efl, L(m), fdx, method=method, shift=shift)
     gap, lhs, rhs = adj_gap(x, y, Ax, By)
+    if p.get('via') != 'wavefront' and imp_:
+        gap = max(gap, 1.0)
     extra = ''
     if p.get('wfmask'):       # documented alternative: the mask as a Wavefront carrying its own spacing
         By2 = P.to_fpm_and_back_backprop(y, dx, wl, efl, P.Wavefront(m, wl, fdx, 'psf'), None, method=method, shift=shift)
@@ -336,7 +387,7 @@ def run_fpm(p):
     line = _fpm_line('fpmbpm', spy, ps, ms, m, y)
     fid = f'fpmbp {ps[0]} {ps[1]} {ms[0]} {ms[1]} ' + rw([dx, efl, wl, fdx, shift[0], shift[1]]) + ' ' + cw(m) + ' ' + cw(y)
     fline = f'fpmfwd {ps[0]} {ps[1]} {ms[0]} {ms[1]} ' + rw([dx, efl, wl, fdx, shift[0], shift[1]]) + ' ' + cw(m) + ' ' + cw(x)
-    return Result(gap <= TOL_ADJ and By.shape == ps, f'<y,Ax>={lhs:.12g} <By,x>={rhs:.12g} rel gap {gap:.3e}' + extra,
+    return Result(gap <= adj_tol(p, Ax, By) and By.shape == ps, f'<y,Ax>={lhs:.12g} <By,x>={rhs:.12g} rel gap {gap:.3e}' + extra,
                   line, By, ps, 'c', nontrivial=max(ps + ms) > 1,
                   extra=[(fline, Ax, ps, 'c', 'physical-parameter model of the forward'),
                          (fid, By, ps, 'c', 'physical-parameter model of the backprop')],
@@ -349,13 +400,14 @@ def run_babinet(p):
     r = _rng(p['seed'])
     ps, ms = tuple(p['pshape']), tuple(p['mshape'])
     dx, efl, wl, fdx = p['dx'], p['efl'], p['wavelength'], p['fpm_dx']
-    x, y = _cplx(r, ps), _cplx(r, ps)
-    m = _mask(r, ms, p['cmask'])
-    lyot = None if p['lyot'] == 'none' else _mask(r, ps, p['lyot'] == 'complex')
+    x, y, m = narrow(p, _cplx(r, ps), _cplx(r, ps), _mask(r, ms, p['cmask']))
+    lyot = None if p['lyot'] == 'none' else narrow(p, _mask(r, ps, p['lyot'] == 'complex'))
+    L = layfn(p)
+    Ll = (lambda a: None if a is None else L(a))
     ft = _impl()[1]
     with Spy(ft) as spy:
-        Ax = P.Wavefront(x, wl, dx).babinet(efl, lyot, m, fdx, method=p.get('method', 'mdft')).data
-    By = P.Wavefront(y, wl, dx).babinet_backprop(efl, lyot, m, fdx, method=p.get('method', 'mdft')).data
+        Ax = P.Wavefront(L(x), wl, dx).babinet(efl, Ll(lyot), L(m), fdx, method=p.get('method', 'mdft')).data
+    By = P.Wavefront(L(y), wl, dx).babinet_backprop(efl, Ll(lyot), L(m), fdx, method=p.get('method', 'mdft')).data
     gap, lhs, rhs = adj_gap(x, y, Ax, By)
     extra = ''
     if p.get('wfmask'):
@@ -379,7 +431,7 @@ def run_babinet(p):
     L = np.ones(ps) if lyot is None else lyot
     line = _fpm_line('babbpm', spy, ps, ms, 1 - m, y, lyot=L)
     fid = f'babbp {ps[0]} {ps[1]} {ms[0]} {ms[1]} ' + rw([dx, efl, wl, fdx]) + ' ' + cw(m) + ' ' + cw(L) + ' ' + cw(y)
-    return Result(gap <= TOL_ADJ and By.shape == ps, f'<y,Ax>={lhs:.12g} <By,x>={rhs:.12g} rel gap {gap:.3e}' + extra,
+    return Result(gap <= adj_tol(p, Ax, By) and By.shape == ps, f'<y,Ax>={lhs:.12g} <By,x>={rhs:.12g} rel gap {gap:.3e}' + extra,
                   line, By, ps, 'c', nontrivial=max(ps + ms) > 1,
                   extra=[(fid, By, ps, 'c', 'physical-parameter model of the backprop')],
                   tag=f'{"cmask" if p["cmask"] else "rmask"}/{"same" if ps == ms else "othershape"}/lyot-{p["lyot"]}')
@@ -391,8 +443,9 @@ def run_intensity(p):
     shp = tuple(p['shape'])
     E, d = _cplx(r, shp), _cplx(r, shp)
     Ibar = r.normal(size=shp)
-    wf = P.Wavefront(E, 0.5, 1.0)
-    G = wf.intensity_backprop(Ibar).data
+    L = layfn(p)
+    wf = P.Wavefront(L(E), 0.5, 1.0)
+    G = wf.intensity_backprop(L(Ibar)).data
     cont = p.get('container')
     cont_msg = ''
     if cont:        # the upstream gradient in the container the docstring names (Wavefront) or the one intensity returns (RichData)
@@ -424,8 +477,9 @@ def run_phase(p):
     phi = r.uniform(-150, 150, size=shp)          # nm
     d = r.normal(size=shp) * 40
     gbar = _cplx(r, shp)
-    wf = P.Wavefront.from_amp_and_phase(A, phi, wl, 1.0)
-    pb = wf.from_amp_and_phase_backprop_phase(P.Wavefront(gbar, wl, 1.0))
+    L = layfn(p)
+    wf = P.Wavefront.from_amp_and_phase(L(A), L(phi), wl, 1.0)
+    pb = wf.from_amp_and_phase_backprop_phase(P.Wavefront(L(gbar), wl, 1.0))
     f = lambda t: float(np.real(np.vdot(gbar, P.Wavefront.from_amp_and_phase(A, phi + t * d, wl, 1.0).data)))
     fd = richardson(f, 2e-2 * wl)
     an = float(np.sum(pb * d))
@@ -443,12 +497,17 @@ def run_modes(p):
     modes = r.normal(size=(k, m, n))
     w = r.normal(size=k)
     d = _cplx(r, (m, n)) if p.get('cbar') else r.normal(size=(m, n))      # upstream gradients may be complex
-    mm = list(modes) if p.get('aslist') else modes
+    L = layfn(p)
+    if p.get('dtype') == 'f32':
+        modes, d = modes.astype(np.float32), d.astype(np.complex64 if np.iscomplexobj(d) else np.float32)
+    elif p.get('dtype') == 'int':
+        d = np.round(d * 3).astype(int) if not np.iscomplexobj(d) else d
+    mm = [L(mk_) for mk_ in modes] if p.get('aslist') else (relayout(modes, p.get('layout')) if p.get('layout_modes') else modes)
     Ax = po.sum_of_2d_modes(mm, w)
-    By, impure = pure2(po.sum_of_2d_modes_backprop, mm, d)
+    By, impure = pure2(po.sum_of_2d_modes_backprop, mm, L(d))
     gap, lhs, rhs = adj_gap(w, d, Ax, By)
     line = None if p.get('cbar') else f'modesbp {k} {m} {n} ' + rw(modes) + ' ' + rw(d)
-    return Result(gap <= TOL_ADJ and np.shape(By) == (k,) and not impure,
+    return Result(gap <= adj_tol(p, Ax, By) and np.shape(By) == (k,) and not impure,
                   f'<d,Aw>={lhs:.12g} <Bd,w>={rhs:.12g} rel gap {gap:.3e}' + (f'; {impure}' if impure else ''), line,
                   By if line else None, (k,) if line else None, 'r',
                   nontrivial=k * m * n > 1, tag=f'k{k}/{"cbar" if p.get("cbar") else "rbar"}')
@@ -478,9 +537,10 @@ def run_softmax(p):
         est = _estimator(ac, kind, tau, nseed)
         node = ac.DiscreteEncoder(est, K if enc == 'int' else np.array(enc, dtype=float)) if enc is not None else est
         return node, node.forward(z)
-    node, out = fwd(x)
+    L = layfn(p)
+    node, out = fwd(L(x))
     g = r.normal(size=out.shape)
-    xb = node.backprop(g)
+    xb = node.backprop(L(g))
     f = lambda t: float(np.sum(g * fwd(x + t * d)[1]))
     hh = 1e-3 * (tau if kind == 'gumbel' else 1.0)
     fd = richardson(f, hh)
@@ -511,7 +571,7 @@ def run_activation(p):
     x = r.normal(size=tuple(p['shape'])) * 1.5 + p['x0']
     if p.get('intx'):                      # integer-typed operating points are legitimate forward inputs
         x = np.round(x * 2).astype(int)
-    x_in = x.copy()
+    x_in = layfn(p)(x.copy())
     b = node.backprop(x_in)
     unchanged = np.array_equal(x_in, x)
     h = 1e-3 / max(1.0, abs(p['a']))
@@ -531,9 +591,14 @@ def run_sg(p):
     shp = tuple(p['shape'])
     mk = (lambda: _cplx(r, shp)) if p.get('complex') else (lambda: r.normal(size=shp))
     x, y = mk(), mk()
+    if p.get('dtype') == 'f32':
+        x, y = narrow(p, x, y)
+    elif p.get('dtype') == 'int' and not p.get('complex'):
+        x, y = np.round(x * 3).astype(int), np.round(y * 3).astype(int)
+    L = layfn(p)
     sg = op.SpatialGradient2D()
     fwd, bk = (sg.forward_x, sg.backprop_x) if p['axis'] == 'x' else (sg.forward_y, sg.backprop_y)
-    Ax, By = fwd(x), bk(y)
+    Ax, By = fwd(L(x)), bk(L(y))
     gap, lhs, rhs = adj_gap(x, y, Ax, By)
     ax = 1 if p['axis'] == 'x' else 0
     n = shp[ax]
@@ -543,11 +608,11 @@ def run_sg(p):
     rs = np.moveaxis(ref, ax, 0)
     if n >= 3:
         rs[1:n - 1] = xs[2:n] - xs[1:n - 1]
-    fwd_ok, det = close(Ax, ref, 1e-14)
+    fwd_ok, det = close(Ax, ref, 1e-6 if p.get('dtype') == 'f32' else 1e-14)
     vec = np.moveaxis(np.real(y), ax, 0).reshape(n, -1)[:, 0]
     got = np.moveaxis(np.real(By), ax, 0).reshape(n, -1)[:, 0] if By.shape == shp else np.real(By)
     line = f'sgbp {n} ' + rw(vec)
-    res = Result(gap <= TOL_ADJ and np.shape(Ax) == shp and np.shape(By) == shp,
+    res = Result(gap <= adj_tol(p, Ax, By) and np.shape(Ax) == shp and np.shape(By) == shp,
                  f'<y,Ax>={lhs:.12g} <By,x>={rhs:.12g} rel gap {gap:.3e}; forward is the interior difference: {det}',
                  extra=[(line, got, (n,), 'r', 'adjoint of the one-sided interior difference')], nontrivial=n >= 3,
                  tag=f'{p["axis"]}/{"sq" if shp[0] == shp[1] else "nonsq"}')
@@ -571,8 +636,13 @@ def run_cost(p):
         a = r.uniform(1, 2, size=shp)
         b = r.uniform(1, 2, size=shp) * (1.0 + 0.5 * r.uniform()) + r.uniform()
     fn = {'mse': co.mean_square_error, 'bgie': co.bias_and_gain_invariant_error, 'nll': co.negative_loglikelihood}[kind]
+    if p.get('dtype') == 'int' and kind != 'nll':          # integer-typed model data (counts) are legitimate inputs
+        a = np.round(a * 4).astype(int)
     d = r.normal(size=shp)
-    c0, g = fn(a.copy(), b, mask)
+    L = layfn(p)
+    Lb = (lambda v: v if np.isscalar(v) else L(v))
+    Lm = (lambda v: None if v is None else L(v))
+    c0, g = fn(L(a.copy()), Lb(b), Lm(mask))
     f = lambda t: float(fn(a + t * d, b, mask)[0])
     fd = richardson(f, 1e-3)
     an = float(np.sum(g * d))
@@ -622,7 +692,7 @@ def run_dm(p):
         y = n_ + s * (np.linalg.norm(n_) / max(np.linalg.norm(s), 1e-300))     # correlated with render(a): <y, render(a)> is not small
     else:
         y = r.normal(size=s.shape)
-    y_in = y.copy()
+    y_in = layfn(p)(y.copy())
     gb = dm.render_backprop(y_in, wfe=p['wfe'])
     unchanged = np.array_equal(y_in, y)
     gap, lhs, rhs = adj_gap(a, y, s, gb)
@@ -878,7 +948,24 @@ def _pick_shift(r):
 
 
 def gen_cases(r, item, k):
-    """k random parameter dicts for an item"""
+    """k random parameter dicts for an item; every second case hands the arrays over in a non-C memory layout (Fortran,
+    transposed view, strided view, negative strides), and the linear nodes get single-precision / integer variants"""
+    out = _gen_cases(r, item, k)
+    if item == 'history':
+        return out
+    for i, d in enumerate(out):
+        if i % 2 == 1:
+            d['layout'] = LAYOUTS[1 + (i // 2) % 4]
+        if item in ('mdft', 'fixed', 'fpm', 'babinet', 'modes', 'sg') and i % 8 == 5:
+            d['dtype'] = 'f32'
+        if item in ('modes', 'sg', 'cost') and i % 8 in (3, 6):
+            d['dtype'] = 'int'
+        if item == 'modes' and i % 4 == 1:
+            d['layout_modes'] = True
+    return out
+
+
+def _gen_cases(r, item, k):
     out = []
     for i in range(k):
         seed = int(r.integers(1, 2 ** 31 - 1))
@@ -1047,7 +1134,10 @@ def small_cases(item):
     elif item == 'modes':
         for k in (1, 2, 3):
             for s in ([1, 1], [1, 2], [2, 3], [3, 2]):
-                yield {'k': k, 'shape': s, 'aslist': False, 'seed': 7}
+                for lay in LAYOUTS:
+                    yield {'k': k, 'shape': s, 'aslist': False, 'seed': 7, 'layout': lay}
+                    if lay != 'C':
+                        yield {'k': k, 'shape': s, 'aslist': True, 'seed': 7, 'layout': lay, 'layout_modes': True, 'cbar': True}
     elif item == 'softmax':
         for kind in ('softmax', 'gumbel'):
             for shape in ([1, 2], [2, 3], [1, 1, 2], [2, 3, 3], [2, 3, 4], [2, 2, 2, 3]):
@@ -1071,6 +1161,8 @@ def small_cases(item):
             for s in ([1, 3], [2, 2], [2, 3], [3, 4]):
                 for mk in (False, True):
                     yield {'kind': kind, 'shape': s, 'masked': mk, 'scalar_yhat': False, 'seed': 7}
+                    if kind != 'nll':
+                        yield {'kind': kind, 'shape': s, 'masked': mk, 'scalar_yhat': False, 'seed': 7, 'dtype': 'int', 'layout': 'F'}
     elif item == 'history':
         for steps in (1, 2, 3):
             for node in ('gumbel', 'encoder-gumbel', 'encoder-softmax', 'softmax'):
@@ -1099,7 +1191,10 @@ QUICK = {'mdft': 30, 'fixed': 40, 'fpm': 42, 'babinet': 30, 'intensity': 12, 'ph
 
 def _safe_run(item, p):
     try:
-        return RUN[item](p)
+        res = RUN[item](p)
+        if p.get('dtype') == 'f32':
+            res.mtol = 3e-5
+        return res
     except Exception as ex:   # an exception where the model returns a value is a failure of the property's predicate
         return Result(False, f'raised {type(ex).__name__}: {ex}')
 
@@ -1122,17 +1217,17 @@ def correspondence(ctx):
             for msg in res.fidelity:
                 fmsgs[(item, msg)] = fmsgs.get((item, msg), 0) + 1
             if res.model_line is not None:
-                pending.append((item, p, res.model_line, res.impl, res.shape, res.kind, 'backprop', True))
+                pending.append((item, p, res.model_line, res.impl, res.shape, res.kind, 'backprop', True, res.mtol))
             for (ln, impl, shape, kind, label) in res.extra:
-                pending.append((item, p, ln, impl, shape, kind, label, False))
+                pending.append((item, p, ln, impl, shape, kind, label, False, res.mtol))
     replies = C.lean_driver('C06', [q[2] for q in pending]) if pending else []
     drift = {}
-    for (item, p, ln, impl, shape, kind, label, blocking), rep in zip(pending, replies):
+    for (item, p, ln, impl, shape, kind, label, blocking, mtol), rep in zip(pending, replies):
         if rep.strip() == 'bad-op':
             ok, det, model = False, 'model rejected the request', None
         else:
             model = parse_c(rep, tuple(shape)) if kind == 'c' else parse_r(rep, tuple(shape))
-            ok, det = close(np.asarray(impl), model, TOL_MODEL)
+            ok, det = close(np.asarray(impl), model, mtol)
         ctx.hist[f'{item}:model-{"adjoint" if blocking else "fidelity"}'] += 1
         if ok:
             continue
